@@ -12,23 +12,33 @@ Definition model_key_fields : list bytes :=
    [72; 101; 97; 100; 101; 114; 115];                                        (* Headers *)
    [73; 110; 105; 116; 80; 97; 121; 108; 111; 97; 100]].                     (* InitPayload *)
 
-(* shape facts the model relies on: getOrDial dials with the caller's ctx and hands the dial error
-   to every waiter (finding a), removeConn deletes by key, removeSub calls closeConn after
-   releasing subsMu (finding b) *)
+(* shape facts the model relies on, read from the Go source by tools/props/c18.py:
+   getOrDial dials with the caller's ctx (ADialCtx); a waiter never inherits an aborted result --
+   own ctx error or getOrDial again, tested before result.err (AWaitDone / ARetry) -- and the
+   dialler marks the result aborted exactly when it failed with its own ctx done (APublish); the
+   dialler leaves the dialing table and stores the connection before close(done) (ABook before
+   APublish); removeConn deletes by key (ARemoveConn); Subscribe starts over when subscribe reports
+   ErrConnectionClosed (AInsert -> SRetry); closeIfEmpty decides "empty" and sets the closed flag in one
+   subsMu critical section, removeSub and the idle timer close only through it, and subscribe tests
+   the flag under the same lock (close_if_empty is ONE action); the subscribe frame is written under
+   the connection's ctx and the subscriber's ctx is only read before the write (ASend, no ASendCtx).
+   Each of the three repairs flips one of these to false if it is undone. *)
 Lemma anchors_ok :
   anchor_connkey_fields = model_key_fields
-  /\ anchor_dial_uses_caller_ctx = true /\ anchor_waiter_returns_dial_err = true
-  /\ anchor_removeconn_by_key = true /\ anchor_close_outside_lock = true.
+  /\ anchor_dial_uses_caller_ctx = true /\ anchor_waiter_never_inherits_abort = true
+  /\ anchor_book_before_publish = true /\ anchor_removeconn_by_key = true
+  /\ anchor_subscribe_restarts_on_closed = true /\ anchor_close_decided_under_lock = true
+  /\ anchor_subscribe_write_conn_ctx = true.
 Proof. repeat split; reflexivity. Qed.
 
 (* ---- non-vacuity examples for the theorems in Properties.v ---- *)
-From Gv Require Import C18.ProofsRouting C18.ProofsIsoPartial.
+From Gv Require Import C18.ProofsRouting.
 Close Scope N_scope.
 
 Definition Kx : key := (1, 1, 0, 0)%N.
 (* coalesced dial; both subscribed on connection 0 (wire ids 0 -> sub 0, 1 -> sub 1) *)
 Definition tr_two : list action :=
-  [ASub 0 Kx; UpAccept 0; ASub 1 Kx; UpAck 0; APublish 0; AWaitDone 1; ABook 0; AInsert 0; AInsert 1; ASend 1; ASend 0].
+  [ASub 0 Kx; UpAccept 0; ASub 1 Kx; UpAck 0; ABook 0; APublish 0; AWaitDone 1; AInsert 0; AInsert 1; ASend 1; ASend 0].
 
 Example ex_routing :
   exists s log, run (init false) (tr_two ++ [UpMsg 0 1 (KData 7); UpMsg 0 0 (KData 8); UpMsg 0 5000 (KData 1);
@@ -72,11 +82,21 @@ Qed.
 Definition tr_double : list action :=
   tr_two ++ [UpMsg 0 1 KComplete; ACtxCancel 1; AUnsub 1; AUnsubSend 1; ARemove 1; ARLRemove 0; UpMsg 0 0 (KData 5)].
 Example ex_double_remove :
-  exists s log x, run (init false) tr_double = Some (s, log) /\ safe_run (init false) tr_double
+  exists s log x, run (init false) tr_double = Some (s, log)
     /\ In (ODeliver 0 (KData 5)) log /\ isolated_log_b log = true /\ routing_b log = true
     /\ cns s 0 = Some x /\ c_closed x = false /\ c_subs x = [(0, 0)].
 Proof.
-  do 3 eexists. split; [vm_compute; reflexivity|]. split; [vm_compute; tauto|].
+  do 3 eexists. split; [vm_compute; reflexivity|].
   split; [vm_compute; tauto|]. split; [vm_compute; reflexivity|]. split; [vm_compute; reflexivity|].
   split; [vm_compute; reflexivity|]. split; reflexivity.
 Qed.
+
+(* cancel_isolated, non-vacuity: coalesced dial, both subscribe, one is cancelled and leaves, the
+   other keeps receiving, then leaves and the connection is closed empty -- nobody fails *)
+Definition tr_iso : list action :=
+  tr_two ++ [UpMsg 0 1 (KData 7); ACtxCancel 0; AUnsub 0; AUnsubSend 0; ARemove 0; UpMsg 0 0 (KData 8); UpMsg 0 1 (KData 9);
+             ACtxCancel 1; AUnsub 1; AUnsubSend 1; ARemove 1; AClose 1; ARemoveConn 0].
+Example ex_cancel_isolated :
+  exists s log, run (init false) tr_iso = Some (s, log) /\ In (ODeliver 1 (KData 9)) log /\ In (OSrvClosed 0) log
+                /\ failed_b 0 log = false /\ failed_b 1 log = false.
+Proof. eexists. eexists. split; [vm_compute; reflexivity|]. repeat split; simpl; tauto. Qed.
